@@ -357,7 +357,7 @@ pub fn run(part: &mut Part) {
         "C03" => {
             let mut seeds = vec![seed_empty(), seed_ab(), seed_two_files(), seed_gc_ready(), seed_empty_old()];
             seeds.extend(cursor_seeds(&[3], &[0, 8, 34]));
-            seeds.extend(gc_spill_seeds().into_iter().take(4));
+            seeds.extend(gc_spill_seeds());
             let seeds = thin(seeds, 3, q);
             let mut alpha = a_write();
             alpha.push(Op::Persist(false));
@@ -424,8 +424,22 @@ pub fn run(part: &mut Part) {
             run_crash(part, profiles, cfgs);
             let stats = explore(&dmg_profiles, part.seed, |env, leaf| crate::damage::c12_damage_leaf(env, leaf));
             part.stats.merge(stats);
+            // any in-place fault anywhere in images with batches (queue deleted / re-created before)
+            let any_alpha = vec![
+                batch(QA, vec![Sz::S1, Sz::S0, Sz::S5, Sz::S3]),
+                batch(QB, vec![Sz::S3, Sz::S3]),
+                Op::app(QB, Pos::Auto, Sz::L),
+                Op::Delete(QA),
+                Op::Create(QA),
+                Op::Trunc { q: QA, at: Tr::First },
+            ];
+            let any_profiles = vec![prof("re-created / multi-file seeds x (batches, filler, delete, create)", thin(vec![seed_recreated_from_zero(), seed_recreated(), seed_ab(), seed_two_files()], 2, q), any_alpha, if TINY { if q { 2 } else { 3 } } else { 1 })];
+            let any_descr: Vec<_> = any_profiles.iter().map(|p| p.describe()).collect();
+            let stats = explore(&any_profiles, part.seed, |env, leaf| crate::damage::c12_anyfault_leaf(env, leaf));
+            part.stats.merge(stats);
+            part.extra.insert("any_fault_profiles".into(), json!(any_descr));
             part.require_outcomes(&["batch-absent"]);
-            part.rule = "histories of multi-record batches (1 frame .. several blocks .. across two WAL files) at cursor seeds block_end-k / file_end-k, followed by partial truncations; every crash point inside the last op; oracle independent of the model: each batch's recovered positions are none, all, or a suffix whose missing head is covered by an issued truncation, bytes identical; damage half: every frame of every batch x every payload/CRC byte alteration, same oracle".into();
+            part.rule = "histories of multi-record batches (1 frame .. several blocks .. across two WAL files) at cursor seeds block_end-k / file_end-k, followed by partial truncations; every crash point inside the last op; oracle independent of the model: each batch's recovered positions are none, all, or a suffix whose missing head is covered by an issued truncation, bytes identical; damage half: every frame of every batch x every payload/CRC/header alteration, and the whole in-place fault menu (every byte x 14 values, zero ranges, every length-field value) anywhere in images that contain batches after a queue was deleted and re-created; same oracle".into();
         }
         "C14" => {
             let mut alpha = a_roll();
@@ -680,7 +694,10 @@ pub fn replay(path: &str) -> i32 {
         "damage" => match property.as_str() {
             "C08" => crate::damage::c08_leaf(&mut env, &leaf),
             "C09" => crate::damage::c09_leaf(&mut env, &leaf),
-            "C12" => crate::damage::c12_damage_leaf(&mut env, &leaf),
+            "C12" => {
+                crate::damage::c12_damage_leaf(&mut env, &leaf);
+                crate::damage::c12_anyfault_leaf(&mut env, &leaf);
+            }
             _ => crate::damage::c10_inplace_leaf(&mut env, &leaf),
         },
         "damage-structural" => {
